@@ -97,7 +97,7 @@ mut("c12_fuzzy_cleared", "C12", "variable.py", '''        # Committing the value
 ''', '''        # Committing the value
         self.value = value
         self.fuzzy.clear()
-''', "defuzzify clears the fuzzy output")
+''', "defuzzify clears the fuzzy output after a *successful* defuzzification: C12 speaks about the fuzzy output only when defuzzification raises, so this is a must-stay-silent control for C12", benign=True)
 mut("c12_default_first", "C12", "variable.py", '''        # Locking previous values
         if self.lock_previous:''', '''        if not np.isnan(self.default_value):
             value[np.isnan(value)] = self.default_value  # type: ignore
